@@ -183,3 +183,57 @@ def in_with_region(node, predicate):
                     return p
         child = p
     return None
+
+walk_expr = _walk_expr
+
+
+def _decompose(test, polarity, out):
+    if isinstance(test, ast.UnaryOp) and isinstance(test.op, ast.Not):
+        _decompose(test.operand, not polarity, out)
+    elif isinstance(test, ast.BoolOp) and isinstance(test.op, ast.And) \
+            and polarity:
+        for v in test.values:
+            _decompose(v, True, out)
+    elif isinstance(test, ast.BoolOp) and isinstance(test.op, ast.Or) \
+            and not polarity:
+        for v in test.values:
+            _decompose(v, False, out)
+    else:
+        out.append((test, polarity))
+
+
+def path_facts(node):
+    """conditions that hold whenever `node` executes, from the enclosing
+    if/elif/else, while and ternary structure (not loops' exits): a list of
+    (expr, truth).  Conjunctions are split, negations normalised."""
+    out = []
+    child = node
+    for p in parents(node):
+        if isinstance(p, FUNC + (ast.Lambda,)):
+            break
+        if isinstance(p, ast.If):
+            if any(child is s for s in p.body):
+                _decompose(p.test, True, out)
+            elif any(child is s for s in p.orelse):
+                _decompose(p.test, False, out)
+        elif isinstance(p, ast.While):
+            if any(child is s for s in p.body):
+                _decompose(p.test, True, out)
+        elif isinstance(p, ast.IfExp):
+            if child is p.body:
+                _decompose(p.test, True, out)
+            elif child is p.orelse:
+                _decompose(p.test, False, out)
+        elif isinstance(p, ast.BoolOp) and isinstance(p.op, ast.And):
+            i = p.values.index(child) if child in p.values else 0
+            for v in p.values[:i]:
+                _decompose(v, True, out)
+        child = p
+    return out
+
+
+def has_fact(facts, pattern, truth):
+    for e, t in facts:
+        if t == truth and match(pattern, e) is not None:
+            return True
+    return False
